@@ -1,4 +1,5 @@
 import IastModel.Spec.Codec
+import IastModel.Lemmas.FindEntryGlb
 /-
   C11 — stack traces report original file and line.  Model of the module-level cache of
   js/source-map/index.js (`rewrittenSourceMapsCache`, a JavaScript `Map`), of `getPathAndLine` and of the
@@ -88,5 +89,27 @@ theorem known_file_translates (toks : List Token) (line col : Nat) (t : Token) (
     simp only at hs
     subst hs
     simp [getPathAndLine, h]
+
+
+/-! ### the binary search of `SourceMap.findEntry` -/
+
+/-- **C11 (lookup).**  On mappings sorted by generated position (what `_parseMappingPayload` leaves),
+    the binary search of `findEntry` returns the last mapping at or before the requested position —
+    the greatest lower bound — and `{}` exactly when every mapping lies after it; for every list of
+    mappings and every position. -/
+theorem findEntry_is_greatest_lower_bound (ms : List FindEntry.Pos) (pos : FindEntry.Pos) (hs : FindEntry.Sorted ms) :
+    match FindEntry.findEntryIdx ms pos with
+    | some i => i < ms.length ∧ FindEntry.posLt pos (ms.getD i (0, 0)) = false ∧
+        ∀ j, i < j → j < ms.length → FindEntry.posLt pos (ms.getD j (0, 0)) = true
+    | none => ∀ j, j < ms.length → FindEntry.posLt pos (ms.getD j (0, 0)) = true :=
+  FindEntry.findEntry_glb ms pos hs
+
+/-- the same, against the specification `Codec.lookup` used by the C09 / C10 oracles and by the C11
+    correspondence as the meaning of "this position resolves to" -/
+theorem findEntry_is_lookup (toks : List Codec.Token) (line col : Nat)
+    (hs : FindEntry.Sorted (toks.map fun t => (t.genLine, t.genCol))) :
+    Codec.lookup toks line col =
+      (FindEntry.findEntryIdx (toks.map fun t => (t.genLine, t.genCol)) (line, col)).bind (fun i => toks[i]?) :=
+  FindEntry.findEntry_eq_lookup toks line col hs
 
 end IastModel.C11
